@@ -13,6 +13,7 @@ B2  long random runs with random addresses are recorded byte for byte and valida
 from __future__ import annotations
 
 import asyncio
+import collections
 import os
 import random
 import struct
@@ -462,8 +463,8 @@ def _norm_state(d):
     return {"st": d["st"], "regs": [sorted(r) for r in d["regs"]], "sess": d["sess"], "circ": d["circ"]}
 
 
-def _judge(w: World, lay, e, label, pl, sends, raised):
-    """Compare what the real objects did on edge e with the specification."""
+def _judge(w: World, lay, e, pl, sends, raised, pr):
+    """Compare what the real objects did (sends, public state pr) on edge e with the specification."""
     bad = []
     exp = _expected(w, lay, e["obs"], pl)
     if not (sends == exp or (e["obs"]["may"] and sends == [])):
@@ -474,18 +475,54 @@ def _judge(w: World, lay, e, label, pl, sends, raised):
             what = "wrong destination" if t1 != t2 else "wrong socket" if v1 != v2 else "content changed"
         bad.append({"clause": "sends", "what": what, "expected": [(v, d.hex(), t) for v, d, t in exp],
                     "got": [(v, d.hex(), t) for v, d, t in sends], "raised": raised})
-    pr = w.proj()
     want = _norm_state(e["dst"])
     if pr != want:
         bad.append({"clause": "state", "what": "public session state differs", "expected": want, "got": pr, "raised": raised})
     return bad
 
 
+_CANDS = None     # state -> in-edges from shallower states, edges without implementation choice first
+_GOODP = {}       # state -> in-edge that this implementation was seen to follow
+_BADE = set()     # in-edges this implementation does not follow (it takes the other allowed branch)
+
+
 def _prep(g: Graph):
-    """Login edges need the login simulator, which the specification fixes (dst.regs)."""
+    """Login edges need the login simulator, which the specification fixes (dst.regs).  A state is
+    reached through its in-edges from shallower states, those without an implementation choice
+    (act.ch) first."""
+    global _CANDS
     for e in g.edges:
         if e["act"]["n"] == "Login":
             e["act"]["_login_sim"] = e["dst"]["regs"][e["act"]["s"] - 1][0]
+    depth = {k: 0 for k in g.inits}
+    dq = collections.deque(depth)
+    while dq:
+        st = dq.popleft()
+        for ei in g.out.get(st, ()):
+            d = g.edges[ei]["_d"]
+            if d not in depth:
+                depth[d] = depth[st] + 1
+                dq.append(d)
+    cands = collections.defaultdict(list)
+    for i, e in enumerate(g.edges):
+        if e["_s"] in depth and depth[e["_s"]] < depth[e["_d"]]:
+            cands[e["_d"]].append(i)
+    for k in cands:
+        cands[k].sort(key=lambda i: (bool(g.edges[i]["act"]["ch"]), depth[g.edges[i]["_s"]], i))
+    _CANDS = dict(cands)
+    _GOODP.clear()
+    _BADE.clear()
+
+
+def _path_to(skey):
+    """Shortest-first path for display (first candidate in-edge of every state)."""
+    path = []
+    while _CANDS.get(skey):
+        e = _G.edges[_GOODP.get(skey, _CANDS[skey][0])]
+        path.append(e)
+        skey = e["_s"]
+    path.reverse()
+    return path
 
 
 def _new_world(lay, seed):
@@ -494,12 +531,30 @@ def _new_world(lay, seed):
 
 
 def _reach(lay, skey, seed):
-    w = _new_world(lay, seed)
-    hist = []
-    for pe in _G.path_to(skey):
-        label, _, _, _ = _apply(w, lay, pe["act"])
-        hist.append(dict(pe["act"], label=label))
-    return w, hist
+    """Real objects in abstract state skey, or None when this implementation never gets there (on
+    every way in it takes the other branch of a choice the property leaves open; a step that no
+    branch allows is reported where that edge itself is replayed)."""
+    if not _CANDS.get(skey):
+        return _new_world(lay, seed), []
+    order = list(_CANDS[skey])
+    if skey in _GOODP:
+        order.remove(_GOODP[skey])
+        order.insert(0, _GOODP[skey])
+    for ei in order:
+        if ei in _BADE:
+            continue
+        e = _G.edges[ei]
+        w, hist = _reach(lay, e["_s"], seed)
+        if w is None:
+            continue
+        label, _, _, _ = _apply(w, lay, e["act"])
+        hist.append(dict(e["act"], label=label))
+        if w.proj() == _norm_state(e["dst"]):
+            _GOODP[skey] = ei
+            return w, hist
+        _BADE.add(ei)
+        w.close()
+    return None, []
 
 
 def _poisons(act):
@@ -507,71 +562,88 @@ def _poisons(act):
     return act["n"] == "C" and act["h"] < 0 and act["k"] not in SOCKS_BAD and act["k"] != "dom"
 
 
+def _groups(skey):
+    """Out-edges of a state grouped by datagram: edges that differ only in act.ch are the outcomes
+    the specification allows for one and the same datagram."""
+    groups = collections.OrderedDict()
+    for i in _G.out.get(skey, ()):
+        e = _G.edges[i]
+        act = e["act"]
+        groups.setdefault((act["n"], act["a"], act["h"], act["k"], act["s"]), []).append(e)
+    return list(groups.values())
+
+
 def _replay_states(tasks):
-    """tasks: [(state key, layout index)].  Self-loop edges of a state are replayed one after the
-    other on the same objects (so a discard that disturbs anything shows up in the next ones),
-    state-changing edges each on freshly built objects."""
-    g = _G
+    """tasks: [(state key, layout index)].  Datagrams that leave the state unchanged are replayed one
+    after the other on the same objects (so a discard that disturbs anything shows up in the next
+    ones), state-changing ones each on freshly built objects."""
     fails = []
     n_edges = 0
+    skipped = 0
     used = set()
     for skey, li in tasks:
         lay = _TABLE[li]
         base = zlib.crc32(("%d|%d|%s" % (_SEED, li, skey)).encode())
-        edges = [g.edges[i] for i in g.out.get(skey, ())]
-        loops = [e for e in edges if e["_d"] == e["_s"]]
-        moves = [e for e in edges if e["_d"] != e["_s"]]
+        groups = _groups(skey)
+        loops = [g for g in groups if all(e["_d"] == e["_s"] for e in g)]
+        moves = [g for g in groups if not all(e["_d"] == e["_s"] for e in g)]
         random.Random(base).shuffle(loops)
-        # mis-addressed (to a viewer's own address) datagrams go last, each followed by probes: edges
-        # of the same association that must forward and already did on these very objects
-        selfies = [e for e in loops if e["act"]["n"] == "C" and e["act"]["h"] < 0]
-        loops = [e for e in loops if not (e["act"]["n"] == "C" and e["act"]["h"] < 0)]
+        # mis-addressed (to a viewer's own address) datagrams go last, each followed by probes: datagrams
+        # of the same association that must be forwarded and already were on these very objects
+        selfies = [g for g in loops if g[0]["act"]["n"] == "C" and g[0]["act"]["h"] < 0]
+        loops = [g for g in loops if not (g[0]["act"]["n"] == "C" and g[0]["act"]["h"] < 0)]
         w, hist = _reach(lay, skey, base)
+        if w is None:
+            skipped += 1
+            continue
         since = []
         passed = []
 
-        def one(e, probe_of=None):
-            nonlocal w, hist, since
-            label, pl, sends, raised = _apply(w, lay, e["act"])
-            used.add((e["act"]["n"], e["act"]["k"], label))
-            bad = _judge(w, lay, e, label, pl, sends, raised)
-            since.append(dict(e["act"], label=label))
-            if bad:
-                fails.append({"layout": li + 1, "history": hist + since[-6:], "act": e["act"], "label": label, "mismatches": bad[:2],
-                              "after_self_addressed": e["act"]["n"] == "C" and any(
-                                  _poisons(x) and x["a"] == e["act"]["a"] for x in since[:-1])})
-                w.close()
-                w, hist = _reach(lay, skey, base + len(fails))
-                since = []
+        def one(grp, fresh=False):
+            nonlocal w, hist, since, n_edges
+            act = grp[0]["act"]
+            label, pl, sends, raised = _apply(w, lay, act)
+            n_edges += 1
+            used.add((act["n"], act["k"], label))
+            pr = w.proj()
+            bads = [_judge(w, lay, e, pl, sends, raised, pr) for e in grp]
+            since.append(dict(act, label=label))
+            if all(bads):
+                bad = min(bads, key=len)
+                fails.append({"layout": li + 1, "history": hist + since[-6:], "act": {k: v for k, v in act.items() if k != "ch"},
+                              "label": label, "mismatches": bad[:2], "alternatives_allowed": len(grp),
+                              "after_self_addressed": act["n"] == "C" and any(
+                                  _poisons(x) and x["a"] == act["a"] for x in since[:-1])})
+                if not fresh:
+                    w.close()
+                    w, hist = _reach(lay, skey, base + len(fails))
+                    if w is None:
+                        raise common.MachineryError("state reached once is not reached again: replay is not deterministic")
+                    since = []
                 return False
             return True
-        for e in loops:
-            if e["act"]["k"] == "spoof" and lay["unk"]["ip"] == lay["clients"][e["act"]["a"] - 1]["ip"]:
+        for grp in loops:
+            act = grp[0]["act"]
+            if act["k"] == "spoof" and lay["unk"]["ip"] == lay["clients"][act["a"] - 1]["ip"]:
                 continue    # on the viewer's own IP a stranger cannot be told from the viewer
-            n_edges += 1
-            if one(e) and e["obs"]["sends"] and not e["obs"]["may"]:
-                passed.append(e)
-        for e in selfies:
-            n_edges += 1
-            if not one(e):
+            if one(grp) and all(e["obs"]["sends"] and not e["obs"]["may"] for e in grp):
+                passed.append(grp)
+        for grp in selfies:
+            if not one(grp):
                 continue
-            probes = [p for p in passed if p["act"]["a"] == e["act"]["a"]]
+            probes = [p for p in passed if p[0]["act"]["a"] == grp[0]["act"]["a"]]
             for p in random.Random(base + n_edges).sample(probes, min(3, len(probes))):
-                n_edges += 1
                 if not one(p):
                     break
         w.close()
-        for j, e in enumerate(moves):
+        for j, grp in enumerate(moves):
             w, hist = _reach(lay, skey, base + 7919 * (j + 1))
-            label, pl, sends, raised = _apply(w, lay, e["act"])
-            n_edges += 1
-            used.add((e["act"]["n"], e["act"]["k"], label))
-            bad = _judge(w, lay, e, label, pl, sends, raised)
-            if bad:
-                fails.append({"layout": li + 1, "history": hist + [dict(e["act"], label=label)], "act": e["act"], "label": label,
-                              "mismatches": bad[:2], "after_self_addressed": False})
+            if w is None:
+                raise common.MachineryError("state reached once is not reached again: replay is not deterministic")
+            since = []
+            one(grp, fresh=True)
             w.close()
-    return n_edges, fails, used
+    return n_edges, fails, used, skipped
 
 
 def _features(f):
@@ -620,7 +692,14 @@ def _b1(chk: Check, consts, label, layouts=(0, 1)):
         if e["obs"]["sends"] or e["src"] != e["dst"]:
             chk.nontrivial(("edge", label, e["_s"], common.skey(e["act"])))
     seen = set()
-    for _, fails, _ in results:
+    skipped = sum(r[3] for r in results)
+    if skipped:
+        chk.notes.append("B1 %s: %d (state, layout) pairs are not reached by this implementation (other branch of a "
+                         "choice the property leaves open)" % (label, skipped))
+    if skipped > len(tasks) // 2:
+        chk.violation("B1 %s: most model states are unreachable in the implementation" % label,
+                      {"kind": "b1-unreachable"}, {"skipped": skipped, "of": len(tasks)})
+    for _, fails, _, _ in results:
         for f in fails:
             feat = _features(f)
             key = common.skey(feat)
@@ -630,7 +709,7 @@ def _b1(chk: Check, consts, label, layouts=(0, 1)):
             chk.violation("B1 %s: %s (%s %s %s)" % (label, f["mismatches"][0]["what"], f["act"]["n"], f["act"]["k"], f["label"]),
                           feat, f)
     e = next((x for x in g.edges if x["obs"]["sends"] and x["act"]["n"] == "H"), g.edges[0])
-    chk.sample({"binding": "B1 edge replay", "path": [p["act"] for p in g.path_to(e["_s"])] + [e["act"]],
+    chk.sample({"binding": "B1 edge replay", "path": [p["act"] for p in _path_to(e["_s"])] + [e["act"]],
                 "expected_output": e["obs"], "expected_state": e["dst"]})
     return len(g.parent), len(g.edges)
 
